@@ -1,4 +1,228 @@
-import AQ.Model.Recovery
+/-
+  C08 — loss-recovery and congestion accounting stay consistent.
+
+  "For every sequence of packets sent, acknowledged in any ranges, declared
+   lost by threshold or timeout, or discarded with their packet number space,
+   the bytes counted as in flight equal the total size of the in-flight
+   packets still being tracked and never go negative, each packet's frames are
+   reported acknowledged or lost at most once, and the congestion window never
+   drops below two datagrams."                (flight-budget clause: see C13)
+
+  Model: `AQ.Model.Recovery` (generic in the float arithmetic `FArith F`);
+  histories: `AQ.Model.RecoveryOps` (`Op`, `step`, `run`, `WF`).  Every theorem
+  holds for EVERY `F` and EVERY `A : FArith F`; only `cwnd_floor_cubic` has
+  hypotheses about `A` (`CubicOrderFacts A`).
+
+  Caller obligations (`WF`): a packet handed to `on_packet_sent` has a packet
+  number not currently tracked in its space, and distinct `sent` ops carry
+  distinct packet objects (`uid`).  `ledger_needs_fresh_pn` shows the first
+  obligation cannot be dropped.
+-/
+import AQ.Proofs.Recovery
+
 namespace AQ.Props.C08
-theorem placeholder : True := trivial
+open AQ AQ.Recovery AQ.RangeSet
+
+variable {F : Type}
+
+/-- "the bytes counted as in flight equal the total size of the in-flight
+    packets still being tracked and never go negative" — after every
+    well-formed history of sent / ack(any ranges) / timeout / discard calls. -/
+theorem ledger (A : FArith F) (algo : Algo) (mds n : Nat) (rttInitial : F) (ops : List (Op F))
+    (h : WF A (Rec.init A algo mds n rttInitial) ops) :
+    (run A (Rec.init A algo mds n rttInitial) ops).cc.bytesInFlight
+        = trackedBytes (run A (Rec.init A algo mds n rttInitial) ops) ∧
+    0 ≤ (run A (Rec.init A algo mds n rttInitial) ops).cc.bytesInFlight := by
+  have hinv := (run_ok A ops _ (Inv.init A algo mds n rttInitial) h.fresh).1
+  have hl := hinv.ledger
+  refine ⟨by rw [trackedBytes_eq]; exact hl, ?_⟩
+  rw [hl]; exact trackedW_nonneg fbW fbW_nonneg _
+
+/-- companion of the ledger: every space's `ack_eliciting_in_flight` counter
+    equals the number of ack-eliciting packets it still tracks (so it never
+    goes negative either), and the dict keys of a space are distinct. -/
+theorem ae_count (A : FArith F) (algo : Algo) (mds n : Nat) (rttInitial : F) (ops : List (Op F))
+    (h : WF A (Rec.init A algo mds n rttInitial) ops) :
+    ∀ s ∈ (run A (Rec.init A algo mds n rttInitial) ops).spaces,
+      s.aeInFlight = aeTracked s ∧ (s.sent.map (·.pn)).Nodup := by
+  have hinv := (run_ok A ops _ (Inv.init A algo mds n rttInitial) h.fresh).1
+  intro s hs
+  exact ⟨by rw [aeTracked_eq]; exact hinv.ae s hs, hinv.nodup s hs⟩
+
+/-- "each packet's frames are reported acknowledged or lost at most once":
+    in the list of delivery callbacks fired during a well-formed history
+    1. every packet object occurs at most once (never ACKED twice, never LOST
+       twice, never both);
+    2. a reported packet object was handed to `on_packet_sent` earlier and is
+       no longer tracked in any space (so it cannot be reported again later);
+    3. a packet that was still tracked when its space was discarded is never
+       reported, neither before nor after the discard. -/
+theorem callbacks_once (A : FArith F) (algo : Algo) (mds n : Nat) (rttInitial : F) (ops : List (Op F))
+    (h : WF A (Rec.init A algo mds n rttInitial) ops) :
+    ((run A (Rec.init A algo mds n rttInitial) ops).log.map (·.1)).Nodup ∧
+    (∀ u d, (u, d) ∈ (run A (Rec.init A algo mds n rttInitial) ops).log →
+      (∃ i p, Op.sent i p ∈ ops ∧ p.uid = u) ∧
+      ∀ s ∈ (run A (Rec.init A algo mds n rttInitial) ops).spaces, ∀ q ∈ s.sent, q.uid ≠ u) ∧
+    (∀ pre i post, ops = pre ++ Op.discard i :: post →
+      ∀ s, (run A (Rec.init A algo mds n rttInitial) pre).spaces[i]? = some s →
+        ∀ q ∈ s.sent, ∀ d, (q.uid, d) ∉ (run A (Rec.init A algo mds n rttInitial) ops).log) := by
+  have h0 := Inv.init A algo mds n rttInitial
+  have ht0 := total_init A algo mds n rttInitial
+  have hrun := run_ok A ops _ h0 h.fresh
+  have hle : ∀ u, total u (run A (Rec.init A algo mds n rttInitial) ops) ≤ sentCount u ops := by
+    intro u; have := hrun.2 u; rw [ht0 u] at this; omega
+  refine ⟨?_, ?_, ?_⟩
+  · refine List.nodup_iff_count.2 (fun u => ?_)
+    have h1 := hle u
+    have h2 := logCount_le_total u (run A (Rec.init A algo mds n rttInitial) ops)
+    have h3 := sentCount_le_one h.uids u
+    unfold logCount at h2; omega
+  · intro u d hmem
+    have h1 := hle u
+    have h2 := mem_log_count hmem
+    have h3 := sentCount_le_one h.uids u
+    have h0' := trackedW_nonneg (uidW u) (uidW_nonneg u)
+      (run A (Rec.init A algo mds n rttInitial) ops).spaces
+    unfold total at h1
+    refine ⟨sentCount_pos (by omega), ?_⟩
+    intro s hs q hq hqu
+    have h4 := one_le_tracked hs hq
+    rw [hqu] at h4
+    omega
+  · intro pre i post hops s hs q hq d hmem
+    subst hops
+    obtain ⟨hf1, _, hf3⟩ := (freshFrom_append A _ pre (Op.discard i :: post)).1 h.fresh
+    obtain ⟨hi1, ht1⟩ := run_ok A pre _ h0 hf1
+    obtain ⟨hi2, _, _⟩ := step_ok A _ (Op.discard i) hi1 trivial
+    have hd := discard_total A _ i s q hi1 hs hq
+    obtain ⟨_, ht3⟩ := run_ok A post _ hi2 hf3
+    have e : run A (Rec.init A algo mds n rttInitial) (pre ++ Op.discard i :: post)
+        = run A (step A (run A (Rec.init A algo mds n rttInitial) pre) (Op.discard i)) post := by
+      rw [run_append]; rfl
+    rw [e] at hmem
+    have h2 := mem_log_count hmem
+    have h3 := logCount_le_total q.uid
+      (run A (step A (run A (Rec.init A algo mds n rttInitial) pre) (Op.discard i)) post)
+    have h4 := ht1 q.uid
+    rw [ht0] at h4
+    have h5 := ht3 q.uid
+    have h6 := sentCount_le_one h.uids q.uid
+    rw [sentCount_append, sentCount_cons] at h6
+    simp only [sentW] at h6
+    omega
+
+/-- "the congestion window never drops below two datagrams" — New Reno,
+    unconditionally: any history at all (no caller obligation is needed), any
+    datagram size, any float arithmetic. -/
+theorem cwnd_floor_reno (A : FArith F) (mds n : Nat) (rttInitial : F) (ops : List (Op F)) :
+    2 * (mds : Int) ≤ (run A (Rec.init A .reno mds n rttInitial) ops).cc.cwnd := by
+  have h0 : RenoInv mds (Rec.init A .reno mds n rttInitial).cc := by
+    refine ⟨rfl, rfl, ?_, ?_⟩ <;> simp [Rec.init, CC.init] <;> omega
+  exact (run_cc A (RenoInv mds) (reno_preserved A mds) ops _ h0).2.2.1
+
+/-- "the congestion window never drops below two datagrams" — CUBIC, for any
+    history at all, for a positive datagram size and every float arithmetic
+    satisfying the sign/monotonicity facts `CubicOrderFacts` (true of IEEE-754
+    doubles while the integers involved stay below 2^53, see the comments on
+    the structure).  Analysis of the branches of `on_packet_acked`:
+    slow start adds bytes; the Reno-friendly branch sets `cwnd = W_est`, and
+    `W_est` is re-initialised to `cwnd` at every entry into congestion
+    avoidance and then only grows (`int(W_est + non-negative)`), so it is ≥ 2
+    datagrams whenever it is read; the concave/convex branch computes
+    `int(cwnd + (target - cwnd) * (mds / cwnd))` with `target ≥ cwnd` in all
+    three cases of its definition; `reset` gives 10 datagrams; a loss gives
+    `max(·, 2 * mds)`.  No branch can go below the floor under these facts. -/
+theorem cwnd_floor_cubic (A : FArith F) (O : CubicOrderFacts A) (mds n : Nat) (hmds : 0 < mds)
+    (rttInitial : F) (ops : List (Op F)) :
+    2 * (mds : Int) ≤ (run A (Rec.init A .cubic mds n rttInitial) ops).cc.cwnd := by
+  have h0 : CubicInv mds (Rec.init A .cubic mds n rttInitial).cc := by
+    refine ⟨rfl, rfl, hmds, ?_, Or.inl rfl⟩
+    simp [Rec.init, CC.init]; omega
+  exact (run_cc A (CubicInv mds) (cubic_preserved A O mds) ops _ h0).2.2.2.1
+
+/-- The state-free form of the caller obligations (no packet number is ever
+    used twice in a space, uids distinct) implies `WF`, so `ledger`,
+    `ae_count` and `callbacks_once` hold for such histories. -/
+theorem wf_of_never_reused (A : FArith F) (algo : Algo) (mds n : Nat) (rttInitial : F) (ops : List (Op F))
+    (h : NeverReused ops) : WF A (Rec.init A algo mds n rttInitial) ops :=
+  wf_of_neverReused A algo mds n rttInitial ops h
+
+/-- Well-formedness passes to prefixes, so `ledger`, `ae_count` and
+    `callbacks_once` hold "after every call" of a well-formed history, not only
+    at its end. -/
+theorem wf_prefix (A : FArith F) (r : Rec F) (pre post : List (Op F)) (h : WF A r (pre ++ post)) :
+    WF A r pre := h.prefix
+
+/-! ### the hypotheses are necessary -/
+
+/-- Freshness of packet numbers is not decorative: handing `on_packet_sent` a
+    second packet object under a packet number that is still tracked (distinct
+    uids, everything else well-formed) overwrites the dict entry while both
+    sizes are added to `bytes_in_flight`: 200 bytes are counted, 100 tracked. -/
+theorem ledger_needs_fresh_pn :
+    ∃ ops : List (Op Unit), (sentUids ops).Nodup ∧
+      (run (unitArith false false true) (Rec.init (unitArith false false true) .reno 1200 1 ()) ops).cc.bytesInFlight
+        ≠ trackedBytes (run (unitArith false false true) (Rec.init (unitArith false false true) .reno 1200 1 ()) ops) :=
+  ⟨[.sent 0 ⟨0, 100, true, true, false, (), 0⟩, .sent 0 ⟨0, 100, true, true, false, (), 1⟩],
+    by decide, by decide⟩
+
+/-- The order facts of `cwnd_floor_cubic` are not decorative either: for an
+    arithmetic whose `int(·)` is constantly 0 a well-formed history (five
+    packets, the last one acknowledged so that two are lost by the packet
+    threshold, then another one acknowledged in congestion avoidance) takes the
+    CUBIC window to 0. -/
+theorem cwnd_floor_cubic_needs_order_facts :
+    ∃ (A : FArith Unit) (ops : List (Op Unit)), NeverReused ops ∧
+      (run A (Rec.init A .cubic 1200 1 ()) ops).cc.cwnd < 2 * 1200 :=
+  ⟨unitArith true false true,
+    [.sent 0 ⟨0, 1200, true, true, false, (), 0⟩, .sent 0 ⟨1, 1200, true, true, false, (), 1⟩,
+     .sent 0 ⟨2, 1200, true, true, false, (), 2⟩, .sent 0 ⟨3, 1200, true, true, false, (), 3⟩,
+     .sent 0 ⟨4, 1200, true, true, false, (), 4⟩, .ack 0 [⟨4, 5⟩] () (), .ack 0 [⟨2, 3⟩] () ()],
+    ⟨by decide, by decide⟩, by decide⟩
+
+/-! ### non-vacuity -/
+
+/-- a well-formed history exercising every kind of call, in which packets are
+    reported ACKED and LOST, one packet is dropped by a discard, and one stays
+    tracked: the theorems above talk about non-trivial runs -/
+example :
+    let A := unitArith false false true
+    let ops : List (Op Unit) :=
+      [.sent 0 ⟨0, 1200, true, true, true, (), 10⟩, .sent 0 ⟨1, 1200, true, true, false, (), 11⟩,
+       .sent 0 ⟨2, 40, false, false, false, (), 12⟩, .sent 0 ⟨3, 1200, true, true, false, (), 13⟩,
+       .sent 0 ⟨4, 1200, true, true, false, (), 14⟩, .sent 1 ⟨0, 300, true, true, false, (), 15⟩,
+       .ack 0 [⟨4, 5⟩] () (), .timeout (), .sent 1 ⟨1, 300, true, true, false, (), 16⟩, .discard 0]
+    let r := run A (Rec.init A .reno 1200 2 ()) ops
+    WF A (Rec.init A .reno 1200 2 ()) ops ∧
+      r.log.map (·.1) = [11, 10, 14] ∧ r.log.map (·.2) = [.lost, .lost, .acked] ∧
+      r.cc.bytesInFlight = 600 ∧ (r.spaces.map (fun s => s.sent.map (·.uid))) = [[], [15, 16]] := by
+  intro A ops r
+  exact ⟨wf_of_neverReused A .reno 1200 2 () ops ⟨by decide, by decide⟩, by decide, by decide, by decide,
+    by decide⟩
+
+/-- `CubicOrderFacts` is satisfiable: exact integer arithmetic has all of them -/
+example : CubicOrderFacts intArith where
+  nonneg x := 0 ≤ x
+  pos x := 0 < x
+  ofNat_nonneg n := Int.natCast_nonneg n
+  ofInt_nonneg _ h := h
+  ofInt_pos _ h := h
+  div_nonneg _ _ hx hy := Int.ediv_nonneg hx (Int.le_of_lt hy)
+  mul_nonneg _ _ hx hy := Int.mul_nonneg hx hy
+  add_floor c y _ hy := by show c ≤ c + y; omega
+  scale_floor c hc := by
+    show c ≤ c * (((3 : Nat) : Int) / ((2 : Nat) : Int))
+    have : (((3 : Nat) : Int) / ((2 : Nat) : Int)) = 1 := by decide
+    rw [this]; omega
+
 end AQ.Props.C08
+
+#print axioms AQ.Props.C08.ledger
+#print axioms AQ.Props.C08.ae_count
+#print axioms AQ.Props.C08.callbacks_once
+#print axioms AQ.Props.C08.cwnd_floor_reno
+#print axioms AQ.Props.C08.cwnd_floor_cubic
+#print axioms AQ.Props.C08.wf_of_never_reused
+#print axioms AQ.Props.C08.wf_prefix
+#print axioms AQ.Props.C08.ledger_needs_fresh_pn
+#print axioms AQ.Props.C08.cwnd_floor_cubic_needs_order_facts
